@@ -672,6 +672,15 @@ def parse_sorting(itoks, ltoks):
 
 
 # ----------------------------------------------------------------------------- output
+def guarded(f, fallback):
+    """a parser that meets text it cannot even tokenise / bracket-match must not abort the run: its table becomes one
+    unparsed row, which falsifies the obligation"""
+    try:
+        return f()
+    except Exception as e:                                   # noqa: BLE001
+        return fallback("%s: %s" % (type(e).__name__, e))
+
+
 def translate(repo):
     ltoks = load(repo, "cgnslib.c")
     itoks = load(repo, "cgns_internals.c")
@@ -687,7 +696,8 @@ def translate(repo):
     if "cg_delete_node" not in fns:
         pre, nd, blocks, tail = ["UNPARSED cg_delete_node not found"], [], ["DUnparsedBlock " + cs("cg_delete_node not found")], "UNPARSED"
     else:
-        pre, nd, blocks, tail = parse_delete(ltoks, fns["cg_delete_node"])
+        pre, nd, blocks, tail = guarded(lambda: parse_delete(ltoks, fns["cg_delete_node"]),
+                                        lambda w: (["UNPARSED " + w], [], ["DUnparsedBlock " + cs(w)], "UNPARSED"))
     out.append("Definition preamble : list string := %s." % clist([cs(p) for p in pre], ";\n  "))
     out.append("")
     out.append("Definition dispatch_tail : string := %s." % cs(tail))
@@ -697,18 +707,18 @@ def translate(repo):
     out.append("Definition delete_table : list dblock := [\n  %s\n]." % ";\n  ".join(blocks))
     out.append("")
     out.append("Definition free_sigs : list (string * string) := [\n  %s\n]." %
-               ";\n  ".join("(%s, %s)" % (cs(a), cs(b)) for a, b in parse_free_sigs(itoks)))
+               ";\n  ".join("(%s, %s)" % (cs(a), cs(b)) for a, b in guarded(lambda: parse_free_sigs(itoks), lambda w: [])))
     out.append("")
     out.append("Definition macro_shift : string := %s." % cs(macro_text(repo, "CGNS_DELETE_SHIFT")))
     out.append("Definition macro_child : string := %s." % cs(macro_text(repo, "CGNS_DELETE_CHILD")))
     out.append("")
-    out.append("Definition write_table : list wrow := [\n  %s\n]." % ";\n  ".join(parse_writers(ltoks)))
+    out.append("Definition write_table : list wrow := [\n  %s\n]." % ";\n  ".join(guarded(lambda: parse_writers(ltoks), lambda w: ["WOther " + cs("?") + " " + cs(w)])))
     out.append("")
-    out.append("Definition addr_tails : list atail := [\n  %s\n]." % ";\n  ".join(parse_addr_tails(itoks)))
+    out.append("Definition addr_tails : list atail := [\n  %s\n]." % ";\n  ".join(guarded(lambda: parse_addr_tails(itoks), lambda w: ["ATailOther " + cs("?") + " " + cs(w)])))
     out.append("")
-    out.append("Definition ctx_writers : list nrow := [\n  %s\n]." % ";\n  ".join(parse_ctx_writers(ltoks)))
+    out.append("Definition ctx_writers : list nrow := [\n  %s\n]." % ";\n  ".join(guarded(lambda: parse_ctx_writers(ltoks), lambda w: ["NRow " + cs("?") + " " + cs("?") + " " + cs("?") + " " + cs(w)])))
     out.append("")
-    calls, cmp_text, callers = parse_sorting(itoks, ltoks)
+    calls, cmp_text, callers = guarded(lambda: parse_sorting(itoks, ltoks), lambda w: ([w], "UNPARSED", []))
     out.append("Definition sort_calls : list string := %s." % clist([cs(c) for c in calls]))
     out.append("Definition sort_comparator : string := %s." % cs(cmp_text))
     out.append("Definition sort_names_callers : list string := %s." % clist([cs(c) for c in callers]))
